@@ -1,9 +1,12 @@
 (* C07 — in-flight work is withheld from observation until the right event releases it.
    Property theorems only; proofs live in Proofs/CoordinatorProofs.v.  Same model and reading
-   guide as Props/C06.v.  [settledD c tj b D = Some (tp, e0)]: every sufficiently confirmed event
-   for the work id at or above the awaited block b delivered since the acceptance at tj is a
-   delivery of one event e0, first delivered (new) at tp inside the acceptance's window -- "the
-   latest thing known about the unit of work is e0". *)
+   guide as Props/C06.v.  [settledD c tj b D = Some (tp, e0)]: the sufficiently confirmed events
+   for the work id at or above the awaited block b delivered since the acceptance at tj form a chain
+   of new events (the first inside the acceptance's window, each next one inside its predecessor's
+   window and for a check block at least as high), e0 is the last of them, first delivered at tp;
+   re-deliveries of e0 and events for lower check blocks do not matter -- "the latest thing known
+   about the unit of work is e0".  An event with the same work id and transaction hash but another
+   transmit block is a different event (the transaction was mined again after a re-org). *)
 From Verif Require Import Base.Util Model.Coordinator Proofs.CoordinatorProofs.
 Open Scope Z_scope.
 
